@@ -532,6 +532,10 @@ def core_specs(P: str = "U", variant: int = 0) -> list[CS]:
             F(FS("v", "prop", "int", "int", default="0"), FS("kid", "child", f"{E} | None", "opt", (E,), kw_only=True, default="None")),
             body='    kind: ClassVar[str] = "var"\n    registry_hint: ClassVar[tuple] = ()\n',
         ),
+        # a base class whose keyword-only child field is declared before the positional child fields of its subclasses
+        # (declaration order is the traversal order, whatever the order of the parameters of __init__)
+        CS(f"{P}KwStmt", (E,), F(FS("comment", "child", f"{E} | None", "opt", (E,), kw_only=True, default="None"), FS("line", "prop", "int", "int", kw_only=True, default="0"))),
+        CS(f"{P}KwAssign", (f"{P}KwStmt",), F(FS("target", "child", E, "one", (E,)), FS("values", "child", f"tuple[{E}, ...]", "tuple", (E,), default="()"), FS("note", "child", f"{E} | None", "opt", (E,), kw_only=True, default="None"), FS("last", "child", f"{E} | None", "opt", (E,), default="None"))),
         CS(f"{P}Tagged", (f"_{P}Tag", f"{P}Leaf"), []),  # a plain (non-node) mixin first in the bases
         CS(f"{P}Name2", (f"{P}Name",), F(FS("alias", "prop", "str", "str", default='""'))),  # 4 levels: Expr > Leaf > Name > Name2
         CS(f"{P}Left", (E,), F(FS("l", "child", f"{E} | None", "opt", (E,), default="None"), FS("lv", "prop", "int", "int", default="0"))),
